@@ -30,6 +30,7 @@ fn main() {
     let args: Vec<String> = std::env::args().collect();
     match args.get(1).map(|s| s.as_str()) {
         Some("codeactions") => std::process::exit(code_actions_case(&args[2], &args[3], &args[4])),
+        Some("edit") => std::process::exit(edit_case(&args[2], &args[3], &args[4], args.get(5).map(|s| s.as_str()).unwrap_or(""))),
         _ => {
             eprintln!("usage: replay_ls codeactions <code points, comma separated> <s,e,prio;s,e,prio;...> <char index>");
             std::process::exit(2)
@@ -92,5 +93,57 @@ fn code_actions_case(code_points: &str, lints: &str, k: &str) -> i32 {
         }
     }
     println!("text {:?}, lints {:?}, request at char {k} = {pos:?}: {} diagnostics, {} actions", text, lints.iter().map(|l| (l.span.start, l.span.end, l.priority)).collect::<Vec<_>>(), diagnostics.len(), actions.len());
+    bad
+}
+
+
+/// C08: the text edit of the quick fix for a lint, applied the way an LSP client does (positions = line / UTF-16 column, by a
+/// converter independent of pos_conv), yields what `Suggestion::apply` yields on the lint's span.
+/// args: <code points> <start,end> <ReplaceWith|Remove|InsertAfter> <replacement code points>
+fn edit_case(code_points: &str, span: &str, kind: &str, with: &str) -> i32 {
+    use tower_lsp::lsp_types::{CodeActionOrCommand, Url};
+    let cps = |s: &str| -> Vec<char> { s.split(',').filter(|x| !x.is_empty()).map(|x| char::from_u32(x.parse().unwrap()).unwrap()).collect() };
+    let chars = cps(code_points);
+    let with = cps(with);
+    let text: String = chars.iter().collect();
+    let v: Vec<usize> = span.split(',').map(|x| x.parse().unwrap()).collect();
+    let sug = match kind { "Remove" => Suggestion::Remove, "InsertAfter" => Suggestion::InsertAfter(with.clone()), _ => Suggestion::ReplaceWith(with.clone()) };
+    let lint = Lint { span: Span::new(v[0], v[1]), lint_kind: LintKind::Miscellaneous, suggestions: vec![sug.clone()], message: "m".into(), priority: 31 };
+    let doc = Document::new_plain_english(&text, &MutableDictionary::new());
+    let url = Url::parse("file:///tmp/x.md").unwrap();
+    let actions = diagnostics::lint_to_code_actions(&lint, &url, &doc, &config::CodeActionConfig::default());
+    let mut want = chars.clone();
+    sug.apply(lint.span, &mut want);
+    // independent LSP position -> char index
+    let to_index = |p: Position| -> usize {
+        let (mut line, mut col, mut i) = (0u32, 0u32, 0usize);
+        while i < chars.len() {
+            if line == p.line && col >= p.character { break; }
+            if chars[i] == '\n' { if line == p.line { break; } line += 1; col = 0; } else { col += chars[i].len_utf16() as u32; }
+            i += 1;
+        }
+        i
+    };
+    let mut bad = 0;
+    let mut seen = 0;
+    for a in &actions {
+        if let CodeActionOrCommand::CodeAction(ca) = a {
+            for edits in ca.edit.iter().flat_map(|e| e.changes.iter()).flat_map(|c| c.values()) {
+                for e in edits {
+                    seen += 1;
+                    let (s, t) = (to_index(e.range.start), to_index(e.range.end));
+                    let mut got: Vec<char> = chars[..s].to_vec();
+                    got.extend(e.new_text.chars());
+                    got.extend_from_slice(&chars[t.max(s)..]);
+                    if got != want {
+                        println!("VIOLATED: text {text:?}, lint {:?}, {kind}: the client obtains {:?}, applying the suggestion gives {:?} (edit {:?} -> {:?})", lint.span, got.iter().collect::<String>(), want.iter().collect::<String>(), e.range, e.new_text);
+                        bad = 1;
+                    }
+                }
+            }
+        }
+    }
+    if seen != 1 { println!("VIOLATED: {seen} text edits for one suggestion"); bad = 1; }
+    if bad == 0 { println!("ok: quick-fix edit for {kind} on {:?} of {text:?}", lint.span); }
     bad
 }
